@@ -207,10 +207,10 @@ PostCallMutants(b) ==
 ConstructionOps == {"rename_collision", "added_edge", "changed_default"}
 CallOp(op) == CASE op = "rename_collision" -> "rename_collision_call" [] op = "added_edge" -> "added_edge_call"
                 [] op = "changed_default" -> "changed_default_call"
-IllFormedCallMutants(b) ==
+IllFormedCallMutants(b, entries) ==
     IF ~NoMapSpecs(b.desc) THEN {}
     ELSE UNION {UNION {{[op |-> CallOp(op), how |-> NoHow, req |-> CallFor(m.desc, o, e, b)] :
-                            o \in AllOutputs(m.desc), e \in CallEntries} : m \in Apply(op, b)} : op \in ConstructionOps}
+                            o \in AllOutputs(m.desc), e \in entries} : m \in Apply(op, b)} : op \in ConstructionOps}
 
 (* --- the call side: pipeline(out, **kw) on the C02 descriptions; the valid base call passes every root argument that a  *)
 (* needed function reads; one keyword is dropped (missing unless it has a default) or one is added (a name that no        *)
@@ -249,14 +249,16 @@ OpClauses(op) == CASE op = "rename_collision"  -> {"UniqueOutputs", "OutputNotOw
                    [] op = "added_edge_call"       -> {"OutputNotOwnParam", "Acyclic"}
                    [] op = "changed_default_call"  -> {"ConsistentDefaults"}
 
-AllFamilies == {"basic", "storage_dict", "post_map", "post_call", "call_kw", "illformed_call"}
+(* ("illformed_call": through pipeline(out, **kw); "illformed_run_func": the same requests through run and func) *)
+AllFamilies == {"basic", "storage_dict", "post_map", "post_call", "call_kw", "illformed_call", "illformed_run_func"}
 ASSUME Families \subseteq AllFamilies
 Mutants == UNION {(IF "basic" \in Families THEN BasicMutants(b) ELSE {})
                   \cup (IF "storage_dict" \in Families THEN StorageDictMutants(b) ELSE {})
                   \cup (IF "post_map" \in Families THEN PostMapMutants(b) ELSE {})
                   \cup (IF "post_call" \in Families THEN PostCallMutants(b) ELSE {})
                   \cup (IF "call_kw" \in Families THEN CallMutants(b) ELSE {})
-                  \cup (IF "illformed_call" \in Families THEN IllFormedCallMutants(b) ELSE {}) : b \in Bases}
+                  \cup (IF "illformed_call" \in Families THEN IllFormedCallMutants(b, {"call"}) ELSE {})
+                  \cup (IF "illformed_run_func" \in Families THEN IllFormedCallMutants(b, CallEntries \ {"call"}) ELSE {}) : b \in Bases}
 
 ---------------------------------------------------------------------------
 (* universe part: one behaviour of the Prepare machine per mutant *)
